@@ -20,9 +20,16 @@ broadcast use {axiom_biguint_ext, axiom_bigint_ext};
 #[verifier::external_body] pub struct ProgramLocation { _p: () }
 
 //@ include units/C04/constant.rs
+//@ include units/C04/expression.rs
 
 proof fn vf_canary_il() ensures false {}
 } // mod il
+
+pub mod executor {
+use super::*;
+use super::il::*;
+//@ include units/C04/eval.rs
+} // mod executor
 proof fn vf_canary_root() ensures false {}
 
 } // verus!
